@@ -23,6 +23,7 @@ class Contract:
     modifies = ()           # heap locations as expressions ("self.__cur"); everything else is framed
     returns = None          # type descriptor of the result (for modular calls)
     yields = None           # element type descriptor when the function is a generator
+    raises_modifies = {}    # exception class name -> modifies list for that exceptional exit (default: `modifies`)
 
     def setup(self, ex):
         """Build the symbolic pre-state; return {param: V}."""
@@ -118,6 +119,17 @@ class World:
             snap = ex.snapshot(list(vals.values()))
             for k, v in vals.items():
                 snap["var:" + k] = v
+            # exceptional outcomes whose frame is empty are decided before the normal-exit havoc
+            for ename, posts in c.raises.items():
+                if c.raises_modifies.get(ename, None) == ():
+                    flag = z3.Bool(fresh_name("raises_%s_%s" % (c.qualname.replace(".", "_"), ename)))
+                    if ex.branch(flag):
+                        ex.old = snap
+                        for p in posts:
+                            ex.assume(ex.truth(ex.eval_text(p)))
+                        import builtins
+                        pycls = getattr(builtins, ename, None) or getattr(f.module.real(), ename)
+                        raise PyRaise(VExc(pycls, []))
             # havoc the frame
             for loc in c.modifies:
                 n = ast.parse(loc, mode="eval").body
@@ -145,6 +157,8 @@ class World:
             ex.old = snap
             # exceptional outcomes
             for ename, posts in c.raises.items():
+                if c.raises_modifies.get(ename, None) == ():
+                    continue
                 flag = z3.Bool(fresh_name("raises_%s_%s" % (c.qualname.replace(".", "_"), ename)))
                 if ex.branch(flag):
                     for p in posts:
@@ -265,7 +279,7 @@ class World:
         """Everything reachable from the parameters that is not listed in `modifies` is unchanged."""
         from vf.pyvc.interp import mangle
         allowed = set()
-        mods = list(c.modifies)
+        mods = list(c.raises_modifies.get(exceptional, c.modifies)) if exceptional else list(c.modifies)
         for loc in mods:
             n = ast.parse(loc, mode="eval").body
             if isinstance(n, ast.Attribute):
